@@ -24,10 +24,10 @@ sys.path.insert(0, HERE)
 
 from polarlint.model import Repo, AnalysisError  # noqa: E402
 from polarlint.core import Ob, Rule, Result, run_rules, run_mutants, violation_keys, write_evidence, load_known  # noqa: E402
-from polarlint.rules import conformance, libcontract, state, splice, pipeline, validate, flow, bayes, mechanisms, formulas  # noqa: E402
+from polarlint.rules import conformance, libcontract, state, splice, pipeline, validate, flow, bayes, mechanisms, formulas, lattice  # noqa: E402
 
 R = {}
-for mod in (conformance, libcontract, state, splice, pipeline, validate, flow, bayes, mechanisms, formulas):
+for mod in (conformance, libcontract, state, splice, pipeline, validate, flow, bayes, mechanisms, formulas, lattice):
     for k, v in mod.RULES.items():
         if k in R:
             raise SystemExit(f"duplicate rule id {k}")
@@ -67,16 +67,16 @@ PROPERTIES = {
         clause="indicator polynomials of And/Or/Not/True/False equal their boolean meaning on all rows; composite conditions recurse into every child; the three "
                "get_moment bodies share the guarded-assignment shape. NOT decided: Atom's Lagrange indicator, power reduction, closure, coefficients."),
     "C05": dict(
-        specs=[S("ENUM"), S("TYPER"), S("TYPERFIX"), S("SUPPORT"), S("SUPPORTKIND"), S("IMPLIED"), S("MARKLAST"), S("GUARD")],
+        specs=[S("ENUM"), S("TYPER"), S("TYPERFIX"), S("SUPPORT"), S("SUPPORTKIND"), S("IMPLIED"), S("MARKLAST"), S("GUARD"), S("LRUMUT")],
         clause="discrete supports enumerate the values the moment/sampler sides use; intervals are refused; only non-failed numeric sets become types; the start state "
                "covers the whole initial block; defaults are included unless the condition is implied by the guard; implied-by-guard answers are sound. "
                "NOT decided: that the fixed point covers all reachable values."),
     "C06": dict(
-        specs=[S("NULLSPACE"), S("ABSTRACT"), S("GROEBNER"), S("RATLATTICE"), S("INVINPUTS")],
+        specs=[S("NULLSPACE"), S("ABSTRACT"), S("GROEBNER"), S("RATLATTICE"), S("INVINPUTS"), S("ALIAS"), S("TRIVIAL"), S("DEADGUARD")],
         clause="no truncation of a rational kernel on the way to exponent vectors; exponentials are abstracted only behind raising checks; the eliminated symbols are "
                "exactly the lex prefix that is filtered. NOT decided: that reported polynomials vanish on the sequences."),
     "C07": dict(
-        specs=[S("GROEBNER"), S("INVINPUTS", r"invariant_ideal"), S("RATLATTICE"), S("KAUERS")],
+        specs=[S("GROEBNER"), S("INVINPUTS", r"invariant_ideal"), S("RATLATTICE"), S("KAUERS"), S("ALIAS"), S("TRIVIAL"), S("DEADGUARD"), S("NORMDIM")],
         clause="both groebner() calls compute elimination ideals (generator prefix == filtered symbols, lex order). NOT decided: completeness of the exponent lattice."),
     "C08": dict(
         specs=[S("A1-dist"), S("A2", r"program/distribution/"), S("SAMPLERS"), S("ENUM"), S("FLOAT", r"float_to_rational|distribution"), S("CFMGF"), S("DISTREWRITE"), S("SUPPORTKIND"), S("MOMENTS"), S("MGFDOMAIN"), S("STATE", r"program/distribution|classmutable|modstate"), S("LRU", r"program/distribution")],
@@ -92,7 +92,7 @@ PROPERTIES = {
                "value enumeration; simulator dispatch / first-match branching / guard stuttering / guarded assignment have the assumed shape. "
                "NOT decided: the distribution of simulated states."),
     "C13": dict(
-        specs=[S("MGF"), S("VOCAB"), S("A1-assign", r"FunctionalAssignment|DistAssignment"), S("TRANSFORMTERM"), S("SECTIONTABLES"), S("FRESHCTX"), S("MGFDOMAIN")],
+        specs=[S("MGF"), S("VOCAB"), S("A1-assign", r"FunctionalAssignment|DistAssignment"), S("TRANSFORMTERM"), S("SECTIONTABLES"), S("FRESHCTX"), S("MGFDOMAIN"), S("STATE", r"program/assignment|classmutable|modstate"), S("LRU", r"program/assignment|program/distribution")],
         clause="mgf is used only behind a raising existence test at the order used; function-name literals are in the grammar vocabulary, dispatchers are total, trig/exp "
                "mixing is refused; rounding happens in one funnel. NOT decided: the transform formulas."),
     "C15": dict(
@@ -100,7 +100,7 @@ PROPERTIES = {
         clause="CPT rows are written only after the row-sum check, in default->table->entries order with a final completeness check; generated code is in topological "
                "order, numbers values by domain position of their own variable; names are sanitised to grammar atoms. NOT decided: numeric query answers."),
     "C16": dict(
-        specs=[S("NULLSPACE"), S("KAUERS"), S("RATLATTICE")],
+        specs=[S("NULLSPACE"), S("KAUERS"), S("RATLATTICE"), S("ALIAS"), S("TRIVIAL"), S("NORMDIM")],
         clause="the rational kernel is not truncated to integers; the LLL loop returns only what passed the exact membership test. NOT decided: independence, completeness."),
     "C17": dict(
         specs=[S("SETTINGS-W"), S("SETTINGS-C"), S("ROOTS"), S("LOSSY", r"utils/expressions.py"), S("SOLVERFLAG"), S("REBUILD"), S("PARSER", r"_transform_categorical"),
@@ -112,7 +112,7 @@ PROPERTIES = {
         clause="parser templates are precedence-safe; arithmetic is re-stringified token by token; probability vectors and assigned names are validated; floats become "
                "exact rationals; simultaneous assignment puts all temporaries first. NOT decided: equality of the analyses of two spellings."),
     "C20": dict(
-        specs=[S("SETTINGS-W"), S("STATE"), S("RANDOM"), S("LRU"), S("FLAG"), S("SETORDER"), S("SOLVERSCOPE"), S("FRESHCTX")],
+        specs=[S("SETTINGS-W"), S("STATE"), S("RANDOM"), S("LRU"), S("FLAG"), S("SETORDER"), S("SOLVERSCOPE"), S("FRESHCTX"), S("LRUMUT")],
         clause="inventory of process-global mutable state equals the reviewed table; settings are not written outside the setter (except scoped overrides); memoised "
                "callables read nothing the analysis phase mutates; order-sensitive consumers of sets equal the reviewed table; randomness only in the simulator; the class flag is refreshed by every normalisation. "
                "NOT decided: equality of results across histories / hash seeds."),
